@@ -182,6 +182,7 @@ def run(ctx, impl_only=False):
     from deepdiff import DeepDiff
     n = 1200 if ctx.thorough() else 160
     pairs = FAM.gen_pairs(ctx, n, bytes_=False)
+    pairs += FAM.rich_pairs(ctx, n // 5)
     reqs = []
     for (t1, t2) in pairs:
         for io, rep in ((False, False), (True, False), (True, True)):
@@ -237,8 +238,64 @@ def run(ctx, impl_only=False):
                     reqs.append((case, t1, t2, False, 0.33, True, vb))
         if len(ctx.samples) < 4:
             ctx.sample({'t1': repr(t1)[:120], 't2': repr(t2)[:120]})
+    table_types(ctx)
+    def f42():
+        import datetime as _dt
+        b = _dt.datetime(2021, 5, 6)
+        lv = DeepDiff([_dt.datetime(2020, 1, 1, 2, 3)], [b], view='tree')['values_changed'][0]
+        return lv.t2 is b or lv.t2 == b
+    core.witnesses(ctx, ID, {'F42': f42})
     if not impl_only:
         FAM.compare_with_model(ctx, reqs)
+
+
+def table_types(ctx):
+    """the to_json / pretty / to_dict clauses over leaves of the types in the documented JSON convertor table"""
+    import datetime, decimal, uuid
+    import numpy as np
+    from deepdiff import DeepDiff
+    pool = [decimal.Decimal('1.5'), decimal.Decimal('2'), decimal.Decimal('-0.25'), b'ab', b'cd', 'é'.encode(), datetime.datetime(2020, 1, 1, 2, 3), datetime.datetime(2021, 5, 6, tzinfo=datetime.timezone.utc),
+            uuid.UUID(int=1), uuid.UUID(int=2), {1, 2}, {2, 3}, {'a'}, (1, 2), (1, 3), (), np.float32(1.5), np.float64(2.5), np.int32(3), np.int64(4), 1, 'a', None, 2.5, True,      # the table's 'type' entry serves old_type / new_type, classes as data are not claimed
+            np.array([1, 2]), np.array([1, 3]), np.array([[1.5, 2.0], [0.0, 1.0]])]
+    wraps = [lambda x: x, lambda x: [x, 0], lambda x: {'k': x, 'z': 1}, lambda x: {'k': [0, x]}, lambda x: (x, 'q')]
+    n = 600 if ctx.thorough() else 120
+    for _ in range(n):
+        a, b = ctx.rng.choice(pool), ctx.rng.choice(pool)
+        w = ctx.rng.choice(wraps)
+        t1, t2 = w(a), w(b)
+        for kw in (dict(), dict(verbose_level=2), dict(ignore_order=True, report_repetition=True)):
+            case = {'t1': repr(t1), 't2': repr(t2), 'cfg': kw, 'clause': 'json convertor table types'}
+            ctx.evaluations += 1
+            try:
+                text = DeepDiff(t1, t2, **kw)
+                tree = DeepDiff(t1, t2, view='tree', **kw)
+            except Exception as e:
+                ctx.count('raised:' + type(e).__name__); continue
+            if text:
+                ctx.nontriv((repr(t1), repr(t2), repr(kw)))
+            ctx.count('table_types')
+            try:
+                js = json.loads(text.to_json())
+                want = {c: sorted(map(str, (v if not isinstance(v, dict) else v.keys()))) for c, v in text.items() if c != 'deep_distance'}
+                got = {c: sorted(map(str, (v if not isinstance(v, dict) else v.keys()))) for c, v in js.items() if c != 'deep_distance'}
+                if want != got:
+                    ctx.violate(case, 'to_json categories/paths differ from the text view: %r vs %r' % (got, want))
+            except Exception as e:
+                ctx.violate(case, 'to_json is not valid JSON / raised %s: %s' % (type(e).__name__, str(e)[:80]))
+            try:
+                stm = text.pretty(prefix=SENT).count(SENT)
+                changes = sum(len(ls) for c, ls in tree.items() if hasattr(ls, '__len__') and c != 'deep_distance')
+                if stm != changes:
+                    ctx.violate(case, 'pretty() has %d statements for %d changes' % (stm, changes))
+            except Exception as e:
+                ctx.violate(case, 'pretty() raised %s: %s' % (type(e).__name__, str(e)[:80]))
+            try:
+                a_ = sorted((c, str(p)) for c, v in tree.to_dict(view_override='text').items() if c != 'deep_distance' for p in (v if not isinstance(v, dict) else v.keys()))
+                b_ = sorted((c, str(p)) for c, v in text.items() if c != 'deep_distance' for p in (v if not isinstance(v, dict) else v.keys()))
+                if a_ != b_:
+                    ctx.violate(case, "tree.to_dict(view_override='text') lists %r, the text view %r" % (a_, b_))
+            except Exception as e:
+                ctx.violate(case, 'to_dict raised %s: %s' % (type(e).__name__, str(e)[:80]))
 
 
 def search(ctx):
